@@ -13,7 +13,7 @@ import (
 )
 
 func init() {
-	register("C16", checkC16, "R16.1 the two unchecked type assertions of the assembler are discharged by the abstract interpreter: every error that can reach them has dynamic type *ErrorParseTCP and is non-nil (set of dynamic types merged over all return sites of the classifier, ParseTCPRequest and ParseMBAPHeader). R16.2 the request dispatcher is interpreted under the facts the assembler has established when it calls it (classifier accepted: protocol id 0, length field >= 3, function byte in the supported table; complete frame: len = 6 + length field): every feasible rejecting return carries an exception whose transaction id, unit id and function are the frame's own bytes and whose code is 3; unaddressed errors (header parser, unknown function) are infeasible there (R16.2b). R16.3 ErrorResponseTCP.Bytes() writes exactly 9 bytes: transaction id, protocol 0, length 3, unit id, function+0x80 (function <= 127), code. R16.4 every reply the assembler builds itself takes transaction id and unit id from the consumed frame and the function code from the parsed request; the other replies are the classifier's addressed exception, the parser's exception (R16.2), the handler's own typed error or the handler's response. R16.5 every go statement of package server starts by deferring a function that recovers, and nothing in that deferred function can panic on a nil callback (C17 R17.1). What handlers put into their own responses is outside the property. R16.0 = C15 R15.1/R15.2. R16.6 no function reachable from the per-connection path stores to package-level state, directly or through a pointer loaded from a package-level variable. R16.7 = C15 R15.3 (the assembler loop: persistence of buffered bytes, every buffered request answered in turn). R16.9 after a failed reply Write the connection loop cannot reach the next Read. R16.5 also: every bounds/nil/assertion obligation of what the deferred recovery reaches is discharged and the recovered value is not asserted unchecked.")
+	register("C16", checkC16, "R16.1 the two unchecked type assertions of the assembler are discharged by the abstract interpreter: every error that can reach them has dynamic type *ErrorParseTCP and is non-nil (set of dynamic types merged over all return sites of the classifier, ParseTCPRequest and ParseMBAPHeader). R16.2 the request dispatcher is interpreted under the facts the assembler has established when it calls it (classifier accepted: protocol id 0, length field >= 3, function byte in the supported table; complete frame: len = 6 + length field): every feasible rejecting return carries an exception whose transaction id, unit id and function are the frame's own bytes and whose code is 3; unaddressed errors (header parser, unknown function) are infeasible there (R16.2b). R16.3 ErrorResponseTCP.Bytes() writes exactly 9 bytes: transaction id, protocol 0, length 3, unit id, function+0x80 (function <= 127), code. R16.4 every reply the assembler builds itself takes transaction id and unit id from the consumed frame and the function code from the parsed request; the other replies are the classifier's addressed exception, the parser's exception (R16.2), the handler's own typed error or the handler's response. R16.5 every go statement of package server starts by deferring a function that recovers, and nothing in that deferred function can panic on a nil callback (C17 R17.1). What handlers put into their own responses is outside the property. R16.0 = C15 R15.1/R15.2. R16.6 no function reachable from the per-connection path stores to package-level state, directly or through a pointer loaded from a package-level variable. R16.7 = C15 R15.3 (the assembler loop: persistence of buffered bytes, every buffered request answered in turn). R16.9 after a failed reply Write the connection loop cannot reach the next Read. R16.5 also: every bounds/nil/assertion obligation of what the deferred recovery reaches is discharged and the recovered value is not asserted unchecked. R16.10 = C15 R15.5 (one freshly allocated assembler per accepted connection).")
 }
 
 func checkC16(c *Ctx, r *Report) {
